@@ -49,6 +49,7 @@ TRANSPARENT = {
     'std::boxed::Box::new', 'std::boxed::Box::pin',
     'std::iter::IntoIterator::into_iter',
     'std::result::Result::as_ref', 'std::result::Result::as_mut',
+    'std::iter::Iterator::filter', 'std::iter::Iterator::rev', 'std::iter::Iterator::by_ref', 'std::iter::Iterator::skip',
 }
 
 
